@@ -2,7 +2,7 @@
    SELECT/FLUSH*, HELLO (cmdDispatcher.go, clientState.go, redisTransaction.go,
    dataStoreSet.go).  [step] is the whole sequential emulator: one command of one
    connection against the shared databases. *)
-From RE Require Import Base Resp State Exec Exec2 Bits.
+From RE Require Import Base Resp State Exec Exec2 Bits Lcs Sort Fnum.
 From Coq Require Import String.
 From Coq Require Import List.
 Open Scope string_scope.
@@ -136,6 +136,10 @@ Definition data_cmd (name : bytes) : option (Z -> db -> list bytes -> res) :=
   if is "bitop" then Some cmd_bitop else
   if is "bitfield" then Some (cmd_bitfield false) else
   if is "bitfield_ro" then Some (cmd_bitfield true) else
+  if is "lcs" then Some cmd_lcs else
+  if is "sort" then Some cmd_sort else
+  if is "incrbyfloat" then Some cmd_incrbyfloat else
+  if is "hincrbyfloat" then Some cmd_hincrbyfloat else
   None.
 
 (* blocking commands: (non-blocking equivalent applied to the arguments without the timeout) *)
